@@ -101,10 +101,23 @@ SCENARIOS = {
 }
 
 
+# the communicator with its REAL poll thread and modules polled through it (harness/ioworld.py):
+# the connection heals by polling, polling of the attached modules resumes right after the reconnect
+IOSCEN = {
+    'io_heal': dict(sensors=[2, 5], pollinterval=3, close_at=6.3, refuse=2, callbacks=1, horizon=30),
+    'io_heal_users': dict(sensors=[4], pollinterval=3, close_at=5.2, refuse=1, callbacks=2, horizon=30,
+                          users=[[('sleep', 5.5), ('comm', 1), ('sleep', 1.5), ('comm', 2), ('sleep', 2.2), ('comm', 3), ('sleep', 6), ('comm', 4)]]),
+    # one call notices the loss, afterwards only the communicator's own poller can heal the connection
+    'io_alone': dict(sensors=[], pollinterval=3, close_at=5.2, refuse=1, callbacks=1, horizon=24,
+                     users=[[('sleep', 6), ('comm', 1)]]),
+    'io_slow_sensor': dict(sensors=[8, 3], pollinterval=3, close_at=9.5, refuse=0, callbacks=1, horizon=36),
+}
+
+
 def scenario(name):
     """name or name@tcp (the same script over the real AsynTcp on a fake socket layer)"""
     base, _, variant = name.partition('@')
-    sc = dict(SCENARIOS[base])
+    sc = dict(IOSCEN[base] if base in IOSCEN else SCENARIOS[base])
     if variant == 'tcp':
         sc['tcp'] = True
     return sc
@@ -112,7 +125,7 @@ T0 = 1000000.0
 
 
 def alpha(r, sc):
-    tr = [{'ev': 'cfg', 'ncb': sc.get('callbacks', 0)}]
+    tr = [{'ev': 'cfg', 'ncb': sc.get('callbacks', 0), 'nsens': len(sc.get('sensors', ()))}]
     for e in r['events']:
         t = int(round((e['vt'] - T0) * 10))
         ev = e['ev']
@@ -121,8 +134,9 @@ def alpha(r, sc):
             tr.append({'ev': 'call', 'i': e['i'], 'kind': e['kind'], 'gids': e['gids'], 'delays': e['delays'], 't': t,
                        'exp': e['exp'],
                        'faulty': any(beh.get(g, ('normal',))[0] not in ('normal', 'garbage_after', 'noreply') for g in e['gids'])
-                       or 'drop_at' in sc or any(b[0] == 'trickle' for b in beh.values())   # (a trickling device is busy)
-                       or any(x[0] == 'disc' for c in sc['callers'] for x in c)})
+                       or 'drop_at' in sc or 'close_at' in sc
+                       or any(b[0] == 'trickle' for b in beh.values())   # (a trickling device is busy)
+                       or any(x[0] == 'disc' for c in sc.get('callers', ()) for x in c)})
         elif ev == 'dev_recv':
             tr.append({'ev': 'drecv', 'g': e['gid'], 't': t})
         elif ev == 'host_send':
@@ -149,7 +163,11 @@ def alpha(r, sc):
         elif ev == 'user_disc_failed':
             tr.append({'ev': 'broken', 'what': 'is_connected := False failed: ' + e['msg']})
         elif ev == 'end':
-            tr.append({'ev': 'end', 'connected': e['connected'], 'unfinished': e['unfinished'],
+            # with its own poll thread the communicator has to be connected again when the device has been
+            # accepting connections for two reconnect intervals (plus the refused attempts) before the end
+            mustheal = bool('close_at' in sc and 'sensors' in sc and
+                            sc['horizon'] - sc['close_at'] >= (sc.get('refuse', 0) + 2) * sc.get('pollinterval', 3) + 1)
+            tr.append({'ev': 'end', 'connected': e['connected'], 'unfinished': e['unfinished'], 'mustheal': mustheal,
                        'trickle': any(b[0] == 'trickle' for b in sc.get('behaviour', {}).values())})
     if r['deadlock'] or r['livelock'] or r['thread_exc']:
         tr.append({'ev': 'broken', 'what': 'deadlock' if r['deadlock'] else 'livelock' if r['livelock']
@@ -162,6 +180,8 @@ def _explore(args):
     from .. import detsched as ds
     from ..commworld import run_scenario
     sc = scenario(name)
+    if name.partition('@')[0] in IOSCEN:
+        from ..ioworld import run_scenario
     out = []
     if mode == 'dfs':
         class Run:
@@ -205,6 +225,9 @@ def run(chk):
             jobs.append((name + '@tcp', 'dfs', chk.seed, ndfs))
         for part in range(2 if quick else 8):
             jobs.append((name + ('@tcp' if part % 2 else ''), 'rnd', chk.seed * 31 + part, nrnd // (2 if quick else 8)))
+    for name in IOSCEN:
+        for part in range(2 if quick else 8):
+            jobs.append((name + ('@tcp' if part % 2 else ''), 'rnd', chk.seed * 31 + part, 20 if quick else 150))
     results = pool_map(_explore, jobs, chunksize=1)
     traces, origin, seen = [], [], set()
     for name, out in results:
@@ -252,6 +275,8 @@ def replay(chk, rep):
     from ..commworld import run_scenario
     d = rep['detail']
     sc = scenario(d['scenario'])
+    if d['scenario'].partition('@')[0] in IOSCEN:
+        from ..ioworld import run_scenario
     r = run_scenario(sc, ds.GuidedStrategy(d['choices']))
     for e in alpha(r, sc):
         print(e)
